@@ -5,6 +5,9 @@ HERE = os.path.dirname(os.path.dirname(os.path.abspath(__file__)))
 
 # id -> (technique, level text, level note, design ref)
 CHECKS = {
+ "C20": ("exhaustive enumeration + proptest against a reference grammar and a round-trip/tiling relation: all addresses in all notations, generated Unicode lines, generated instruction sequences with shrinking",
+         "All 65536 addresses in seven notations, bare and inside break/p/print lines with generated case and Unicode padding, must parse to exactly their value; enumerated and generated malformed or out-of-range numerals must be rejected; arbitrary Unicode and structured lines must be handled without panicking and agree with the reference grammar; byte sequences composed of complete instructions (any first byte, any base incl. wrap) must be tiled exactly by disassemble()'s rendered output and agree with decoder::decode and the published length table.",
+         "trusted: the reference grammar in c20.rs and models::sm83::LENGTHS; gray zone (leading +, 0X prefix, non-ASCII digits and case folding, extra tokens, unknown first words) accepts either outcome", "DESIGN.md §5 C20"),
  "C15": ("model-based testing against a reference frame renderer + metamorphic batching invariance: proptest-generated frames with shrinking",
          "Generated VRAM (three styles), OAM (up to 40 objects biased to edges, shared lines, equal X), scroll, window, palette and LCDC values are held constant while the machine runs one whole frame in 4-clock batches and in generated larger batches; the buffer presented at VBlank must equal models::ppu's composition pixel for pixel, and both runs must agree.",
          "trusted: models::ppu with the stated selection/priority semantics; LCD and BG enabled; mid-frame register effects and DMG window glitches out of scope", "DESIGN.md §5 C15"),
